@@ -19,7 +19,7 @@
    whose rows do not alias in the DDRAM of one HD44780 (C17_geometry_refuted for the others). *)
 From Coq Require Import ZArith QArith List Bool.
 From RV Require Import Base.LcdBase Host.LCD Device.DLCD Device.LCDRefine
-  Proofs.LCDHostP Proofs.LCDDevP Proofs.LCDP Proofs.LCDTop.
+  Proofs.LCDHostP Proofs.LCDDevP Proofs.LCDP Proofs.LCDTop Gen.LcdTables Proofs.LCDTablesP.
 Import ListNotations.
 Open Scope Z_scope.
 
@@ -249,6 +249,24 @@ Theorem C17_glyph_rows : forall h d slot bitmap,
     rows = map (fun v => Z.land v 31) bitmap /\ zlen rows = 8 /\ Forall (fun v => 0 <= v <= 31) rows.
 Proof. exact top_glyph. Qed.
 Print Assumptions C17_glyph_rows.
+
+(* ===================================================== tables (regenerated from the source) *)
+
+(* Gen/LcdTables.v is rewritten from Displays/LCD.py, parser.py and emitter.py on every run:
+   the style names of host, parser and emitter coincide and map to the glyphs the models use
+   (U+2588 / 0xFF for block), the alignment names coincide and map to the enum values
+   0 left, 1 center, 2 right the firmware helper tests, and both resolvers lower-case *)
+Theorem C17_tables_agree :
+  (forall s, style_ok s = true ->
+     assoc (style_name s) host_styles = Some (host_glyph s) /\
+     assoc (style_name s) dev_styles = Some (dev_glyph s)) /\
+  map fst host_styles = map fst dev_styles /\ map fst dev_styles = parser_styles /\
+  length host_styles = 4%nat /\
+  (forall a, align_ok a = true -> assoc (align_name a) dev_aligns = Some a) /\
+  map fst dev_aligns = host_aligns /\ parser_aligns = host_aligns /\ length host_aligns = 3%nat /\
+  parser_align_lowercases = true /\ parser_style_lowercases = true.
+Proof. exact tables_agree. Qed.
+Print Assumptions C17_tables_agree.
 
 (* ===================================================== non-vacuity *)
 Definition ex_g : geom := {| g_cols := 16; g_rows := 2; g_i2c := false; g_blpin := Some 9 |}.
